@@ -3,3 +3,5 @@ import Props.C03
 import Props.C04
 import Props.C17
 import Props.C18
+import Props.C10
+import Props.C11
